@@ -16,7 +16,7 @@ PROP = "C06"
 COQ_TARGETS = ["Props/C06.vo", "Extract/ExtractC06.vo"]
 TRUSTED = [
     "the check follows the code as it is now: /repo contains the fix commits a455136 37fb060 a2f08b3 2ad4134 a8ad4f5 "
-    "fd59dc0 220dc27 and the model is run at fixed=true, keepcat=false; fixed=false / keepcat=true (the behaviour BEFORE "
+    "fd59dc0 220dc27 8227060 d53ebab and the model is run at fixed=true, keepcat=false, blank_ref_removed=true; fixed=false / keepcat=true (the behaviour BEFORE "
     "those commits, incl. the quantifier reading of digits-only references) is kept only for the record theorems of the "
     "repaired defects and is checkable with VERIF_C06_FIXED=0 VERIF_C06_KEEPCAT=1 against a tree at 5312cdc",
     "Model/RefSplice.v (replace_ref, _remover, the regular expression as an explicit backtracking scanner with the "
@@ -32,6 +32,9 @@ TRUSTED = [
     "Sidecar.get_column_refs is an input of the model (theorems quantify over every order)",
 ]
 ASSUMPTIONS = [
+    "the final join skips exactly '', blanks-only (U+0020) texts and 'n/a', and a reference whose column text is one of "
+    "these goes through the remover (both proved for all inputs); the literal substitution of a blanks-only referenced "
+    "text before fix commit d53ebab (C06-F8) is kept as a record theorem",
     "proved for all tables and sidecars of the model of the current code: which columns are listed and with which "
     "transformer, read off the sidecar's JSON shape (HED column, categorical, value, unlisted kinds, sorted distinct names), "
     "row_is_union over that specified list, row_order, second answer equals the first, na_is_removed, never-raises, skipped "
@@ -61,6 +64,26 @@ FIXED = int(os.environ.get("VERIF_C06_FIXED", "1"))
 # failure is accepted.  1: the behaviour BEFORE 220dc27 (repaired defect C06-F7: the pandas 'category' dtype stayed on
 # self._dataframe); only meaningful with VERIF_REPO pointing at a tree without that commit.
 KEEPCAT = int(os.environ.get("VERIF_C06_KEEPCAT", "0"))
+
+
+def _coq_blank_ref_removed():
+    """the model's switch Model/RefSplice.v: blank_ref_removed (true = the code as it is since fix commit d53ebab)"""
+    src = open(os.path.join(C.COQ, "Model", "RefSplice.v")).read()
+    m = re.search(r"Definition blank_ref_removed : bool := (true|false)\.", src)
+    if not m:
+        raise RuntimeError("Model/RefSplice.v: blank_ref_removed not found")
+    return m.group(1) == "true"
+
+
+# Does replace_ref remove a reference whose column text holds only blanks?  1 (default, read from the model's constant
+# Model/RefSplice.v: blank_ref_removed = true) = the code as it is since fix commit d53ebab: the full statement is
+# demanded.  0 = the behaviour BEFORE d53ebab (repaired defect C06-F8; failures of exactly that class are attributed to
+# it) -- only meaningful against a tree without that commit and a model built with the constant set to false.
+BLANKREF = int(os.environ.get("VERIF_C06_BLANKREF", "1" if _coq_blank_ref_removed() else "0"))
+# blanks-only / blank-padded texts as an input dimension: only for the current code (the tree before 8227060 listed
+# blank parts; the model follows the current rule)
+BLANK_DIM = bool(FIXED)
+BLANKS = [" ", "  ", "   ", " n/a", "n/a ", "Red ", " Red", " (Blue, Green) "]
 LEGACY_FINDINGS = {
     "C06-F1": "an empty referenced-column text (n/a/empty/unknown categorical cell) substituted literally: '{cat}, Square' -> ', Square'",
     "C06-F2": "digits-only reference used un-escaped in the pattern ({1} is a quantifier): 'Red, {1}, Blue' -> 'Red{1}Blue'; {0} raises",
@@ -126,7 +149,7 @@ def impl_case(case):
             path = os.path.join(d, "f%d_%d.tsv" % (os.getpid(), case["_id"]))
             with open(path, "w", newline="") as f:
                 f.write("\t".join(cols) + "\n" + "".join("\t".join(row) + "\n" for row in rows))
-            # (a row of empty cells in a one-column file is a blank line, which read_csv drops: not generated)
+            # (a row of empty or blanks-only cells in a one-column file is a blank line, which read_csv drops: not generated)
             file_before = open(path, "rb").read()
             src = path
             df = None
@@ -428,6 +451,32 @@ def classify(case, loaded_cols, row, index_default=True):
     return None
 
 
+def classify_blank(case, loaded_cols, row):
+    """C06-F8 precondition: a non-referenced column's text for this row contains {R} where R is a usable table column
+    whose text for the row is non-empty and holds only blanks (U+0020)"""
+    sc = case["sidecar"]
+    tr = {}
+    for c, x in zip(loaded_cols, row):
+        e = sc.get(c) if isinstance(sc, dict) else None
+        if c == "HED":
+            tr[c] = x
+        elif col_kind(e) == "categorical":
+            tr[c] = e["HED"].get(x, "")
+        elif col_kind(e) == "value":
+            tr[c] = NA if x in (NA, "") else e["HED"].replace("#", x)
+    refs = set()
+    for t in tr.values():
+        refs.update(REF_RE.findall(t))
+    refs &= set(tr)
+    for c, t in tr.items():
+        if c in refs:
+            continue
+        for r_ in REF_RE.findall(t):
+            if r_ in refs and tr[r_] != "" and tr[r_].strip(" ") == "":
+                return "C06-F8"
+    return None
+
+
 def oracle(case, r, res, counts):
     """Every clause of the statement, checked on the implementation's behaviour."""
     pub = public_case(case)
@@ -484,6 +533,8 @@ def oracle(case, r, res, counts):
         if bad:
             # repaired code: the full statement is demanded, no failure class is accepted
             fid = None if FIXED else classify(case, loaded_cols, row, index_default)
+            if fid is None and not BLANKREF:
+                fid = classify_blank(case, loaded_cols, row)
             res.report(bad[0], dict(pub, row=i), bad[1], fid=fid)
             counts["fail:" + str(fid)] = counts.get("fail:" + str(fid), 0) + 1
 
@@ -590,6 +641,8 @@ def gen_valid(rng, nmax_rows=4, digits=False):
             d = {}
             for j, k in enumerate(keys):
                 d[k] = gen_tree_text(rng, extra if (j == 0 or rng.random() < 0.5) else [], 2)
+                if BLANK_DIM and j > 0 and rng.random() < 0.1:
+                    d[k] = rng.choice([" ", "  ", d[k] + " ", " " + d[k]])      # entry text that comes out blank / padded
             sc[nm] = {"HED": d}
             if rng.random() < 0.3:
                 sc[nm]["Description"] = "d"
@@ -615,19 +668,21 @@ def gen_valid(rng, nmax_rows=4, digits=False):
         row = []
         for c in cols:
             if c == "HED":
-                row.append(rng.choice(["Red", "(Blue, Green)", NA, "", "Square, (Item/Object, Red)"])
+                row.append(rng.choice(BLANKS) if BLANK_DIM and rng.random() < 0.12 else
+                           rng.choice(["Red", "(Blue, Green)", NA, "", "Square, (Item/Object, Red)"])
                            if rng.random() < 0.75 else rng.choice(SPECIAL_TAGS + NEAR_NA[:8]))
             elif c in sc and kinds[c] == "categorical":
                 row.append(rng.choice(list(sc[c]["HED"]) * 2 + [NA, "", "zzz"]) if rng.random() < 0.85 else odd_cell(rng))
             elif c in sc and kinds[c] == "value":
-                row.append(rng.choice(["3", "abc", "1.5", NA, NA, ""]) if rng.random() < 0.6 else odd_cell(rng))
+                row.append(rng.choice(BLANKS[:6]) if BLANK_DIM and rng.random() < 0.1 else
+                           rng.choice(["3", "abc", "1.5", NA, NA, ""]) if rng.random() < 0.6 else odd_cell(rng))
             else:
                 row.append(rng.choice(["1.0", "x", NA]))
         rows.append(row)
     mode = "file" if rng.random() < 0.25 else "df"
     if mode == "file":
         for row in rows:
-            if all(x == "" for x in row):
+            if all(x.strip(" ") == "" for x in row):      # read_csv drops a line that holds only blanks/tabs
                 row[0] = NA
     return {"sidecar": sc, "columns": cols, "rows": rows, "mode": mode, "stream": "valid"}
 
@@ -640,7 +695,8 @@ def gen_systematic():
                "(Square, ({0}))", "(({0}), Square), Green", "Square, ({0}), Green", "(Square, {0}, Green)"]
     shapes2 = ["{0}, {1}", "({0}, {1})", "{0}, Square, {1}", "({0}), ({1})", "({0}, Square), {1}", "(Square, ({0}, {1}))",
                "Square, ({0}, ({1}))", "({0}, ({1}, Square))"]
-    cells = {"cat": ["go", NA, "", "zzz"], "val": ["7", NA, "", "a", "p\\1q"], "HED": ["Red, (Blue)", NA, "", "n"]}
+    cells = {"cat": ["go", NA, "", "zzz"], "val": ["7", NA, "", "a", "p\\1q"] + ([" "] if BLANK_DIM else []),
+             "HED": ["Red, (Blue)", NA, "", "n"] + (["  "] if BLANK_DIM else [])}
     out = []
     for host in ("cat", "val", "host"):
         others = [c for c in ("cat", "val", "HED") if c != host]
@@ -726,9 +782,17 @@ CORPUS = [
     {"sidecar": {"val": {"HED": "({HED}, Label/#)"}}, "columns": ["val", "HED"],
      "rows": [["v", "Red"], ["v", NA], [NA, "Red"], ["v", ""]], "mode": "df"},
     {"sidecar": {"x": {"Description": "q"}}, "columns": ["x", "other"], "rows": [["1", "a"], ["2", "b"]], "mode": "df"},
+    # fix commit 8227060: parts that hold only blanks are skipped by the join (value template "#", HED cell, entry text)
+    {"sidecar": {"val": {"HED": "#"}, "cat": {"HED": {"go": "Red", "b": "  "}}}, "columns": ["val", "cat", "HED"],
+     "rows": [[" ", "b", "  "], ["  ", "go", "Green"], ["Red ", "b", " "], [" n/a", "go", "n/a "]], "mode": "df"},
+    # regression for repaired defect C06-F8 (fix commit d53ebab): a blanks-only text of a REFERENCED column is removed
+    {"sidecar": {"val": {"HED": "{HED}, Square, Label/#"}, "cat": {"HED": {"go": "({val}), Blue"}}},
+     "columns": ["val", "HED", "cat"], "rows": [["x", " ", "zzz"], ["y", "Red ", "zzz"], ["z", "  ", "zzz"]], "mode": "df"},
     # every '#' of a value template is the cell text
     {"sidecar": {"val": {"HED": "(Label/#, ID/#), Red"}}, "columns": ["val"], "rows": [["7"], [NA]], "mode": "df"},
 ]
+if not BLANK_DIM:     # the tree before 8227060 lists blanks-only parts: the two blank cases are for the current code only
+    CORPUS = [c for c in CORPUS if not any(x.strip(" ") == "" and x != "" for row in c["rows"] for x in row)]
 for _c in CORPUS:
     _c["stream"] = "corpus"
 
@@ -782,7 +846,9 @@ def gen_history(rng):
     cols = list(names) + (["HED"] if has_hed else []) + (["onset"] if rng.random() < 0.3 else [])
     rng.shuffle(cols)
     pool = ["go", "stop", "left", NA, "", "zzz", "3", "abc", "a", "n/", "N/A", "x\\1y", "\\g<0>", "100%"]
-    hedpool = ["Red", "(Blue, Green)", NA, "", "n", "Label/a\\b"]
+    hedpool = ["Red", "(Blue, Green)", NA, "", "n", "Label/a\\b"] + ([" ", "Red "] if BLANK_DIM else [])
+    if BLANK_DIM:
+        pool = pool + [" ", "  ", " n/a"]
     rows = [[rng.choice(hedpool if c == "HED" else pool) for c in cols] for _ in range(rng.randint(1, 3))]
     ops = [["assemble"]]
     for _ in range(rng.randint(2, 6)):
@@ -912,8 +978,11 @@ def oracle_history(case, h, res, counts):
             for i, row in enumerate(st["rows"]):
                 got = st["series"][i]
                 if not wf_delim(got) or parse_tree(got) != expected_row(pseudo, case["columns"], row):
+                    fid = None if BLANKREF else classify_blank(pseudo, case["columns"], row)
                     res.report("history-row-is-union", dict(where, row=i),
-                               f"step {k} row {i}: got {got!r} expected tree {expected_row(pseudo, case['columns'], row)!r}")
+                               f"step {k} row {i}: got {got!r} expected tree {expected_row(pseudo, case['columns'], row)!r}",
+                               fid=fid)
+                    counts["fail:" + str(fid)] = counts.get("fail:" + str(fid), 0) + 1
     if h.get("table_after") != h.get("table_expected"):
         res.report("history-table", pub, f"table {h.get('table_after')} expected {h.get('table_expected')}")
 
@@ -1144,6 +1213,10 @@ def run(tier, seed, res, model_ok=True, proof_ok=True):
 def _run(tier, seed, res, model_ok, proof_ok, rng, scratch):
     nval = 700 if tier == "quick" else 20000
     nmal = 300 if tier == "quick" else 8000
+    if not BLANKREF:
+        res.known_ids = dict(getattr(res, "known_ids", {}))
+        res.known_ids.setdefault("C06-F8", {"id": "C06-F8", "what": "(behaviour before fix commit d53ebab, VERIF_C06_BLANKREF=0) a "
+                                            "blanks-only text of a referenced column substituted literally: ' , Square'"})
     if not FIXED:
         res.known_ids = dict(getattr(res, "known_ids", {}))
         for k, v in LEGACY_FINDINGS.items():
@@ -1224,6 +1297,8 @@ def _run(tier, seed, res, model_ok, proof_ok, rng, scratch):
                     for k, row in enumerate(rows):
                         got = C.uncps(m[1][k])
                         if not wf_delim(got) or parse_tree(got) != expected_row(cases[i], cols, row):
+                            if not BLANKREF and classify_blank(cases[i], cols, row) == "C06-F8":
+                                continue        # pre-d53ebab mode only (repaired defect C06-F8)
                             ok = False
                             break
                 if not ok:
